@@ -393,6 +393,7 @@ func TestC20(t *testing.T) {
 			})
 		}
 	}
+	c20ProdCells(t)
 	// ---- index arithmetic (Itol / TransposeIndex / divmod): coordinates and iteration
 	c20cell(t, "C01.addr", "index/addr", nCases(150, 3000), func(rt *rapid.T) Case {
 		shape := genC01Shape(rt)
